@@ -399,9 +399,16 @@ func (cl *Clients) runOp(op *ClientOp, res *ClientResult, conn *Conn, br *bufio.
 	res.Status = resp.StatusCode
 	res.Header = resp.Header
 	buf := make([]byte, 32<<10)
+	paused := false
 	for {
 		n, rerr := resp.Body.Read(buf)
 		if n > 0 {
+			if op.PauseFor > 0 && !paused && len(res.Body)+n >= op.PauseAfter {
+				// a client that is busy with what it has got: the data waits in the network
+				paused = true
+				s.Fault("client.read-pause")
+				time.Sleep(op.PauseFor)
+			}
 			res.Body = append(res.Body, buf[:n]...)
 			res.BodyLen = len(res.Body)
 			res.Arrivals = append(res.Arrivals, Arrival{At: s.Now(), N: len(res.Body)})
